@@ -40,6 +40,9 @@ use uuid::Uuid;
 
 pub const MAX_SNAPSHOT_SIZE: usize = 64 * 1024; // 64 KB
 pub const MAX_SNAPSHOT_ITEMS: usize = 1024;
+/// Type numbers of extended (UUID) types are in
+/// `OFFSET_EXTENDED_TYPE_ID..MAX_EXTENDED_TYPE_ID`.
+const MAX_EXTENDED_TYPE_ID: u16 = 0x8000;
 
 #[derive(Clone, Debug, Eq, PartialEq)]
 pub enum Error {
@@ -499,11 +502,12 @@ impl Snap {
             if raw_type_id == TYPE_ID_EX {
                 let item_data = self.raw.item_from_offset(offset.clone());
                 let uuid = item_data_to_uuid(warn, item_data).ok_or(Error::InvalidUuidType)?;
-                if self
-                    .extended_types
-                    .insert(uuid, key_to_id(item_key))
-                    .is_some()
-                {
+                let type_id = key_to_id(item_key);
+                if !(OFFSET_EXTENDED_TYPE_ID..MAX_EXTENDED_TYPE_ID).contains(&type_id) {
+                    // Not a type number that `Builder` could have assigned.
+                    return Err(Error::InvalidUuidType);
+                }
+                if self.extended_types.insert(uuid, type_id).is_some() {
                     return Err(Error::DuplicateUuidType);
                 }
             } else if raw_type_id >= OFFSET_EXTENDED_TYPE_ID {
@@ -910,7 +914,10 @@ impl Builder {
                     btree_map::Entry::Vacant(v) => {
                         let raw_type_id = self.next_type_id;
                         assert!(OFFSET_EXTENDED_TYPE_ID <= raw_type_id, "invalid type ID");
-                        assert!(raw_type_id < 0x8000, "invalid type ID");
+                        if raw_type_id >= MAX_EXTENDED_TYPE_ID {
+                            // Ran out of type numbers for extended types.
+                            return Err(BuilderError::TooManyItems);
+                        }
                         self.snap.raw.add_item(
                             TYPE_ID_EX,
                             raw_type_id,
